@@ -1,5 +1,274 @@
-//! Harness binary for property C16 (line protocol; see /verif/vlib/BUILDER_GUIDE.md).
+//! Protocols of C16 (server text edits apply cleanly):
+//!   `diff <old> <new>`            hook `verif_hooks_c16::list_diff` (the private `list_differ::compute`
+//!                                 of crates/samlang-services/src/ast_differ.rs) on integer lists
+//!   workspace / server commands   `new`, `src`, `init`, `upd`, `rm`, `mv`, `qa`, `qc`, `errs`, `eval`,
+//!                                 `mdiff` — real `ServerState`, `rewrite::code_actions`,
+//!                                 `completion::auto_complete`, fresh re-analysis of a spliced text.
+//! Strings cross the protocol hex-encoded. One answer line per input line.
+use samlang_ast::{Location, Position};
+use samlang_errors::{CompileTimeError, ErrorDetail, ErrorSet};
+use samlang_heap::{Heap, ModuleReference};
+use samlang_services::{completion, rewrite, server_state::ServerState, verif_hooks_c16 as hooks};
+use samverif_harness::util::*;
+use std::collections::HashMap;
+use std::panic::{AssertUnwindSafe, catch_unwind};
+
+fn parse_list(s: &str) -> Vec<i64> {
+  if s == "-" { Vec::new() } else { s.split(',').map(|x| x.parse().unwrap()).collect() }
+}
+
+fn join<T: ToString>(xs: &[T]) -> String {
+  xs.iter().map(|x| x.to_string()).collect::<Vec<_>>().join(",")
+}
+
+fn show_script(script: &[(i32, hooks::PlainChange)]) -> String {
+  if script.is_empty() {
+    return "-".to_string();
+  }
+  script
+    .iter()
+    .map(|(p, c)| match c {
+      hooks::PlainChange::Insert { items, has_separator, leading_separator } => format!(
+        "I@{p}[{}]s{}l{}",
+        join(items),
+        if *has_separator { 1 } else { 0 },
+        if *leading_separator { 1 } else { 0 }
+      ),
+      hooks::PlainChange::Delete(a) => format!("D@{p}[{a}]"),
+      hooks::PlainChange::Replace(a, b) => format!("R@{p}[{a}>{b}]"),
+    })
+    .collect::<Vec<_>>()
+    .join(";")
+}
+
+fn mod_ref(heap: &mut Heap, dotted: &str) -> ModuleReference {
+  heap.alloc_module_reference_from_string_vec(dotted.split('.').map(|s| s.to_string()).collect())
+}
+
+fn loc_str(l: &Location) -> String {
+  format!("{}:{}-{}:{}", l.start.0, l.start.1, l.end.0, l.end.1)
+}
+
+fn show_edits(edits: &[(Location, String)]) -> String {
+  if edits.is_empty() {
+    return "-".to_string();
+  }
+  edits
+    .iter()
+    .map(|(l, t)| format!("{}={}", loc_str(l), hex(t.as_bytes())))
+    .collect::<Vec<_>>()
+    .join(",")
+}
+
+fn show_errors(heap: &Heap, errors: &[CompileTimeError], sources: &HashMap<ModuleReference, String>) -> String {
+  if errors.is_empty() {
+    return "-".to_string();
+  }
+  let mut out: Vec<String> = errors
+    .iter()
+    .map(|e| {
+      let kind = match &e.detail {
+        ErrorDetail::InvalidSyntax(_) => "S".to_string(),
+        ErrorDetail::CannotResolveClass { module_reference: _, name } => {
+          format!("U:{}", hex(name.as_str(heap).as_bytes()))
+        }
+        _ => "O".to_string(),
+      };
+      let msg = e.to_ide_format(heap, sources).ide_error;
+      format!("{kind}@{}@{}", loc_str(&e.location), hex(msg.as_bytes()))
+    })
+    .collect();
+  out.sort();
+  out.join(",")
+}
+
+/// Summary of a text as a samlang module, parsed on its own heap: syntax-error count, import list
+/// (module + members, in order), each toplevel pretty-printed on its own, all comment texts.
+fn summarize(text: &str) -> String {
+  let mut heap = Heap::new();
+  let mut errors = ErrorSet::new();
+  let m = samlang_parser::parse_source_module_from_text(
+    text,
+    ModuleReference::DUMMY,
+    &mut heap,
+    &mut errors,
+  );
+  let nsyn = errors.errors().iter().filter(|e| e.is_syntax_error()).count();
+  let imports: Vec<String> = m
+    .imports
+    .iter()
+    .map(|i| {
+      format!(
+        "{}:{}",
+        i.imported_module.pretty_print(&heap),
+        i.imported_members.iter().map(|id| id.name.as_str(&heap).to_string()).collect::<Vec<_>>().join("+")
+      )
+    })
+    .collect();
+  let tops: Vec<String> = m
+    .toplevels
+    .iter()
+    .map(|t| hex(samlang_printer::pretty_print_toplevel(&heap, 100, &m.comment_store, t).as_bytes()))
+    .collect();
+  let mut comments: Vec<String> = m
+    .comment_store
+    .all_comments()
+    .iter()
+    .flat_map(|n| n.iter())
+    .map(|c| hex(c.text.as_str(&heap).as_bytes()))
+    .collect();
+  comments.sort();
+  format!(
+    "syn={} imports={} tops={} comments={}",
+    nsyn,
+    if imports.is_empty() { "-".to_string() } else { imports.join(",") },
+    if tops.is_empty() { "-".to_string() } else { tops.join(",") },
+    if comments.is_empty() { "-".to_string() } else { comments.join(",") }
+  )
+}
+
 fn main() {
-  eprintln!("c16: not implemented yet");
-  std::process::exit(2);
+  std::panic::set_hook(Box::new(|_| {}));
+  let mut pending: Vec<(String, String)> = Vec::new();
+  let mut state: Option<ServerState> = None;
+  for_each_line(|line| {
+    let t: Vec<&str> = line.split(' ').collect();
+    let r = catch_unwind(AssertUnwindSafe(|| -> String {
+      match t[0] {
+        "diff" => {
+          let (old, new) = (parse_list(t[1]), parse_list(t[2]));
+          show_script(&hooks::list_diff(&old, &new))
+        }
+        "new" => {
+          pending.clear();
+          state = None;
+          "ok".to_string()
+        }
+        "src" => {
+          pending.push((t[1].to_string(), unhex_str(t[2])));
+          "ok".to_string()
+        }
+        "init" => {
+          let mut heap = Heap::new();
+          let sources: HashMap<ModuleReference, String> =
+            pending.iter().map(|(m, s)| (mod_ref(&mut heap, m), s.clone())).collect();
+          state = Some(ServerState::new(heap, false, sources));
+          "ok".to_string()
+        }
+        "upd" => {
+          let st = state.as_mut().unwrap();
+          let m = mod_ref(&mut st.heap, t[1]);
+          st.update(vec![(m, unhex_str(t[2]))]);
+          "ok".to_string()
+        }
+        "rm" => {
+          let st = state.as_mut().unwrap();
+          let m = mod_ref(&mut st.heap, t[1]);
+          st.remove(&[m]);
+          "ok".to_string()
+        }
+        "mv" => {
+          let st = state.as_mut().unwrap();
+          let a = mod_ref(&mut st.heap, t[1]);
+          let b = mod_ref(&mut st.heap, t[2]);
+          st.rename_module(vec![(a, b)]);
+          "ok".to_string()
+        }
+        // current text of a module as the server holds it
+        "text" => {
+          let st = state.as_mut().unwrap();
+          let m = mod_ref(&mut st.heap, t[1]);
+          match st.string_sources.get(&m) {
+            Some(s) => format!("t:{}", hex(s.as_bytes())),
+            None => "none".to_string(),
+          }
+        }
+        "errs" => {
+          let st = state.as_mut().unwrap();
+          let m = mod_ref(&mut st.heap, t[1]);
+          show_errors(&st.heap, st.get_errors(&m), &st.string_sources)
+        }
+        // quick-fix code actions for a range
+        "qa" => {
+          let st = state.as_mut().unwrap();
+          let m = mod_ref(&mut st.heap, t[1]);
+          let p: Vec<u32> = t[2..6].iter().map(|x| x.parse().unwrap()).collect();
+          let loc = Location { module_reference: m, start: Position(p[0], p[1]), end: Position(p[2], p[3]) };
+          let actions = rewrite::code_actions(st, loc);
+          if actions.is_empty() {
+            return "-".to_string();
+          }
+          actions
+            .iter()
+            .map(|a| match a {
+              rewrite::CodeAction::Quickfix { title, edits } => {
+                format!("{}|{}", hex(title.as_bytes()), show_edits(edits))
+              }
+            })
+            .collect::<Vec<_>>()
+            .join(";")
+        }
+        // completion items that carry additional edits
+        "qc" => {
+          let st = state.as_mut().unwrap();
+          let m = mod_ref(&mut st.heap, t[1]);
+          let pos = Position(t[2].parse().unwrap(), t[3].parse().unwrap());
+          let items = completion::auto_complete(st, &m, pos);
+          let total = items.len();
+          let with: Vec<String> = items
+            .iter()
+            .filter(|i| !i.additional_edits.is_empty())
+            .map(|i| {
+              format!(
+                "{}|{}|{}",
+                hex(i.label.as_bytes()),
+                hex(i.detail.as_bytes()),
+                show_edits(&i.additional_edits)
+              )
+            })
+            .collect();
+          format!("n={} {}", total, if with.is_empty() { "-".to_string() } else { with.join(";") })
+        }
+        // fresh analysis of the workspace with one module's text replaced: errors of that module
+        // + structural summary of the text
+        "eval" => {
+          let st = state.as_ref().unwrap();
+          let text = unhex_str(t[2]);
+          let mut heap = Heap::new();
+          let mut sources: HashMap<ModuleReference, String> = HashMap::new();
+          let target = mod_ref(&mut heap, t[1]);
+          for (m, s) in st.string_sources.iter() {
+            let name = m.pretty_print(&st.heap);
+            let m2 = mod_ref(&mut heap, &name);
+            sources.insert(m2, s.clone());
+          }
+          sources.insert(target, text.clone());
+          let fresh = ServerState::new(heap, false, sources);
+          format!(
+            "errs={} {}",
+            show_errors(&fresh.heap, fresh.get_errors(&target), &fresh.string_sources),
+            summarize(&text)
+          )
+        }
+        // module diff between two texts (old -> new), edits positioned in the old text
+        "mdiff" => {
+          let (a, b) = (unhex_str(t[1]), unhex_str(t[2]));
+          let mut heap = Heap::new();
+          let mut es = ErrorSet::new();
+          let old = samlang_parser::parse_source_module_from_text(&a, ModuleReference::DUMMY, &mut heap, &mut es);
+          let new = samlang_parser::parse_source_module_from_text(&b, ModuleReference::DUMMY, &mut heap, &mut es);
+          if es.has_errors() {
+            return "skip".to_string();
+          }
+          show_edits(&hooks::module_diff_edits(&heap, ModuleReference::DUMMY, &old, &new))
+        }
+        "sum" => summarize(&unhex_str(t[1])),
+        _ => "bad-op".to_string(),
+      }
+    }));
+    match r {
+      Ok(s) => s,
+      Err(e) => format!("panic:{}", hex(panic_msg(&e).as_bytes())),
+    }
+  });
 }
